@@ -16,7 +16,7 @@ STATUTORY = tuple(r for r in RULES if r not in GENERIC)
 _NAME_WORDS = ['Adams', 'Baker', 'Chu', 'Diaz', 'Eve', 'Falk', 'Gray', 'Hahn', 'Ito', 'Jung',
                'Kim', 'Lund', 'Moe', 'Ngo', 'Orr', 'Pike', 'Quin', 'Roy', 'Sato', 'Tran']
 _ODD_WORDS = ['#1', '/*x', 'x*/', "O'Neil", 'Zoë', 'Łuk', '李', 'a=b', '[z]', '(q)', '-3', '0', 'é', '#', '/*', '*/',
-              '100%', '%d', '%s', '%(x)s', '{0}', '{', '}', '\\', '\\n', '$1', '&amp;', '<b>', '12', '1e3']
+              'Uninterrupted', 'interrupted', '100%', '%d', '%s', '%(x)s', '{0}', '{', '}', '\\', '\\n', '$1', '&amp;', '<b>', '12', '1e3']
 
 
 def _name(rnd, i, odd):
